@@ -247,7 +247,9 @@ extern struct simheap_stats g_hs;
 int simheap_is_live(const void *p);     /* p is the start of a live block */
 size_t simheap_size(const void *p);     /* size of live block starting at p */
 int simheap_tag(const void *p);
-int simheap_id(const void *p);          /* ordinal id of live or quarantined block starting at p, -1 */
+int simheap_id(const void *p);
+int simheap_id_live(int id);            /* block #id is still allocated */
+void *simheap_id_ptr(int id);          /* ordinal id of live or quarantined block starting at p, -1 */
 /* block containing address (live or freed): returns id or -1; *live, *off */
 int simheap_find(const void *addr, int *live, size_t *off, size_t *size);
 unsigned simheap_live_count(int tag);
